@@ -235,11 +235,15 @@ fn styles_xml(p: &str, st: &Value) -> String {
     for (tag, key) in [("cellStyleXfs", "cellStyleXfs"), ("cellXfs", "cellXfs")] {
         if let Some(xs) = st[key].as_array() {
             x.push_str(&format!("<{} count=\"{}\">", q(p, tag), xs.len()));
-            for id in xs {
+            for (i, id) in xs.iter().enumerate() {
                 if id.is_null() {
                     x.push_str(&format!("<{} fontId=\"0\"/>", q(p, "xf")));
                 } else {
-                    x.push_str(&format!("<{} numFmtId=\"{}\" fontId=\"0\" fillId=\"0\" borderId=\"0\" applyNumberFormat=\"1\"/>", q(p, "xf"), id));
+                    // the apply* attributes record which parts of the xf were set by the user (style
+                    // inheritance in the UI); the number format of a cell is its xf's numFmtId whatever
+                    // they say -- written "1", "0", "true" or not at all, xf after xf
+                    let apply = ["applyNumberFormat=\"1\"", "applyNumberFormat=\"0\"", "", "applyNumberFormat=\"false\""][i % 4];
+                    x.push_str(&format!("<{} numFmtId=\"{}\" fontId=\"0\" fillId=\"0\" borderId=\"0\" {}/>", q(p, "xf"), id, apply));
                 }
             }
             x.push_str(&format!("</{}>", q(p, tag)));
